@@ -9,6 +9,10 @@ SEQ_TEXT = ("TLC explores the TLA+ mirror of the Sequence scheduler (spec/Pulser
             "explored behaviour is replayed call by call on the working tree and the projected state compared with TLC's; "
             "behaviours where the tree differs are recorded and TLC (spec/PulserSeqTrace.tla) evaluates the same predicates "
             "on the real states. A violation is only reported for a predicate false on states produced by the real code.")
+REC_TEXT = (" In addition (code -> spec from independent executions): long random programs (8-18 public calls, valid and "
+            "invalid) on random devices with float-valued pulses are executed on the tree under a recorder, and TLC validates "
+            "every recorded trace against the same model and predicates (both tiers; harness/randdriver.py); in the thorough "
+            "tier the repository's own tests are recorded and validated the same way.")
 SEQ_NOTE = ("bounded: call lattice, depth and device family of the configurations listed in the evidence; fall times and EOM "
             "off-detunings are numeric oracles read from the tree at start; trusted: TLC, the projection harness/project.py")
 
@@ -18,6 +22,8 @@ FUNC_TEXT = ("The pure function behind the property is transcribed into an expli
              "executed on the working tree and compared (one implementation test per TLC state).")
 FUNC_NOTE = ("bounded: the lattice stated in the evidence (rule); trusted: TLC, the mapping from lattice integers to "
              "floats, numpy comparisons within the stated tolerances")
+
+RECORDED_FOR = {"C01", "C02", "C03", "C07", "C09", "C10", "C13", "C15"}
 
 CLAIMED = {
     "C19": dict(technique="TLA+ reference enumerated by TLC, every state executed on the implementation", ref="5 C19",
@@ -33,8 +39,8 @@ CLAIMED = {
                 text="The filter laws are real-analysis statements: Modulation.tla enumerates the case lattice (waveform class x duration x channel and EOM bandwidth x amplitude x the four modulate() modes) and states the contracts (one rise time per end, linearity, integral, non-negativity, no overshoot, half amplitude at the bandwidth, rise <= fall <= 2 rise, tail beyond the accounted fall time below max(0.01, 0.6% of the peak)) over integer observations; every case is measured on the working tree and TLC evaluates the contracts on every observation. 'Modulated sampling succeeds whenever plain sampling does and ends at duration + fall time' is decided on every state of the render configurations explored by TLC from the scheduler model.",
                 note="the filter clauses are a monitor written in TLA+, not model checking (DESIGN 6); observations quantised to 1e-9 / 1e-6 rad/us; band of 1e-6 of the input maximum on the positivity/overshoot clauses", engine="tlc-func"),
     "C18": dict(technique="TLA+ model checking (TLC) + replay; switch_device results compared with the original (strict) and judged by TLC against the new device's limits (non-strict)", ref="5 C18",
-                text="TLC explores programs on a base device; every behaviour is replayed on the tree and on every reached state the sequence is switched to 22 device variants (each differing in one channel/device parameter, or in channel order): strict=True must raise or return the identical timeline and samples; the result of strict=False is projected under the new device and TLC evaluates the state invariants of PulserProps (tiling, pulses within the new limits, sequence duration, retarget rules) on it, and it is compared with the model's replay of the recorded calls on that device (SwitchResult in PulserSeqMC.tla). switch_register(same register) is checked on every state of the rel_* configurations.",
-                note="bounded: one base device, 22 variants, call lattice of 16 calls, depth 2 (quick) / 3 (thorough); the strict matching predicate itself is not modelled, only its guarantee is checked"),
+                text="TLC explores programs on a base device; every behaviour is replayed on the tree and on every reached state the sequence is switched to 24 device variants (each differing in one channel/device parameter, or in channel order): strict=True must raise or return the identical timeline and samples; the result of strict=False is projected under the new device and TLC evaluates the state invariants of PulserProps (tiling, pulses within the new limits, sequence duration, retarget rules) on it, and it is compared with the model's replay of the recorded calls on that device (SwitchResult in PulserSeqMC.tla). switch_register(same register) is checked on every state of the rel_* configurations.",
+                note="bounded: one base device, 24 variants, call lattice of 16 calls, depth 2 (quick) / 3 (thorough); the strict matching predicate itself is not modelled, only its guarantee is checked"),
     "C16": dict(technique="TLA+ reference (Waveforms.tla) enumerated by TLC, every state executed on the implementation", ref="5 C16",
                 text=FUNC_TEXT + " Window areas / from_max_val / finiteness for all durations are contracts evaluated on the implementation's samples (monitored observations).",
                 note=FUNC_NOTE, engine="tlc-func"),
@@ -73,7 +79,9 @@ for pid, c in sorted(CLAIMED.items()):
         "evidence_file": f"/verif/evidence/{pid}.json",
         "replay_cmd_template": f"./check {pid} --replay {{path}}",
         "engine": c.get("engine", "tlc-seq"),
-        "level_claimed": {"category": "model_checking", "text": c.get("text", SEQ_TEXT), "design_ref": c["ref"]},
+        "level_claimed": {"category": "model_checking",
+                          "text": c.get("text", SEQ_TEXT) + (REC_TEXT if pid in RECORDED_FOR else ""),
+                          "design_ref": c["ref"]},
         "level_note": c.get("note", SEQ_NOTE),
         "technique": c["technique"],
     })
